@@ -279,7 +279,7 @@ def check(prog: Program, tier: str) -> Result:
     _is_blocking(prog, res, isb, kinds)
     _safe_callables(prog, res)
     _consumers(prog, res)
-    res.floors.update({"R16.1": 60, "R16.2": 25, "R16.3": 10, "R16.4": 2, "R16.5": 1, "R16.6": 3, "R16.7": 8})
+    res.floors.update({"R16.1": 60, "R16.2": 25, "R16.3": 10, "R16.4": 2, "R16.5": 1, "R16.6": 3, "R16.7": 8, "R16.8": 5})
     res.analysed.update({"ast_kinds": len(kinds)})
     return res
 
@@ -418,6 +418,18 @@ def _is_blocking(prog: Program, res: Result, fn: Func, kinds: List[type]) -> Non
             res.decide(ok, "R16.4", fn.loc(r), fn.fq, f"{cls}: {norm(r)}",
                        f"reached only after {node}.{hdr} was evaluated successfully" if ok else
                        f"'blocking' can be answered for a {cls.lower()} loop whose header value is unknown: the loop may run zero times, yet the statements after it are deleted")
+    # R16.8 the loop context travels with every recursive call (break/continue block only outside a loop)
+    ctx_param = fn.posparams[1] if len(fn.posparams) > 1 else None
+    if ctx_param:
+        for c in prog.calls_in(fn):
+            r = prog.resolve_call(c.func, fn.mod, fn)
+            if r and r[0] == "fn" and r[1].key == fn.key:
+                from ..defuse import call_arg as _call_arg
+                a = _call_arg(c, 1, ctx_param)
+                ok = a is not None and (norm(a) == ctx_param or norm(a) == f"type({node})")
+                res.decide(ok, "R16.8", fn.loc(c), fn.fq, short(c, 70),
+                           f"passes the loop context on ({norm(a)})" if ok else
+                           f"recursive call without the loop context '{ctx_param}': inside a loop, `break`/`continue` in the visited block is then treated like `return` and the code after the loop is deleted")
     # R16.5 if with unknown test
     for n in walk_own(fn.node):
         if isinstance(n, ast.If) and PE(prog, fn, ast.If).test(n.test) is True and isinstance(n.test, ast.Call):
@@ -623,11 +635,14 @@ VARIANTS: List[Variant] = [
     Variant("while-unknown-falls-through", "FIRE", "core",
             "        except ValueError:\n            return False  # The loop may not be entered at all\n", "        except ValueError:\n            pass\n", "R16.4"),
     Variant("for-unknown-falls-through", "FIRE", "core",
-            "            iterator = literal_value(node.iter)\n        except ValueError:\n            return False\n",
-            "            iterator = literal_value(node.iter)\n        except ValueError:\n            iterator = [1]\n", "R16.4"),
+            "        except (ValueError, TypeError):  # TypeError: The value is known, but cannot be iterated\n            return False\n",
+            "        except (ValueError, TypeError):  # TypeError: The value is known, but cannot be iterated\n            pass\n", "R16.4"),
     Variant("if-unknown-any-branch", "FIRE", "core",
             "            return all(\n                any(is_blocking(child, parent_type) for child in branch) for branch in branches\n            )",
             "            return any(\n                any(is_blocking(child, parent_type) for child in branch) for branch in branches\n            )", "R16.5"),
+    Variant("with-branch-drops-loop-context", "FIRE", "core",
+            "        return any(is_blocking(child, parent_type) for child in node.body)\n\n    return False\n",
+            "        return any(is_blocking(child) for child in node.body)\n\n    return False\n", "R16.8"),
     Variant("is-blocking-default-true", "FIRE", "core",
             "        return any(is_blocking(child, parent_type) for child in node.body)\n\n    return False\n",
             "        return any(is_blocking(child, parent_type) for child in node.body)\n\n    return True\n", "R16.1"),
